@@ -33,6 +33,7 @@ let show_obs = function
   | BRecv (Some ((id, origin), pl)) -> Printf.sprintf "x%d:%d:%s" (int_of_nat id) (int_of_nat origin) (show_pl pl)
   | BBool b -> if b then "b1" else "b0"
   | BExh (k, e) -> Printf.sprintf "x%d:%s" (int_of_nat k) (show_err e)
+  | BFiles (c, d) -> Printf.sprintf "c%dd%d" (int_of_nat c) (int_of_nat d)
   | BBlocks -> "BLOCKS"
 let show_canary l = String.concat " " (List.map (fun (id, pl) -> Printf.sprintf "%d=%s" (int_of_nat id) (show_pl pl)) l)
 
@@ -54,7 +55,7 @@ let parse_op name args =
   | "sd" -> OSubDrop (a 0)
   | "ln" -> OLoan (a 0) | "wr" -> OWrite (a 0) | "snd" -> OSend (a 0) | "ld" -> OLoanDrop (a 0)
   | "sn" -> OSendCopy (a 0) | "rx" -> ORecv (a 0) | "rd" -> OSampleDrop (a 0) | "hs" -> OHasSamples (a 0)
-  | "pu" -> OPubUpdate (a 0) | "su" -> OSubUpdate (a 0) | "ex" -> OExhaust (a 0)
+  | "pu" -> OPubUpdate (a 0) | "su" -> OSubUpdate (a 0) | "ex" -> OExhaust (a 0) | "fc" -> OFiles
   | _ -> failwith ("unknown op " ^ name)
 
 (* which property an operation's reference value belongs to, and the stable key of a failure *)
@@ -132,6 +133,7 @@ let () =
                  | BExh (_, e) -> show_err e | BLoaned _ -> "ok" | BCreated _ -> "ok" | o -> show_obs o));
                let om = (if String.length impl > 2 && String.sub impl (String.length impl - 2) 2 = "@?" then
                             (match String.index_opt om '@' with Some i -> String.sub om 0 i ^ "@?" | None -> om) else om) in
+               let om = if name = "fc" && impl = "-" then "-" else om in   (* local services have no files *)
                if om <> impl then begin
                  incr mm_model; dead := true;
                  report ("model" ^ name) (Printf.sprintf "MISMATCH case=%d op=%d kind=model prop=C01 key=pubsub:model line=[%s] model=%s impl=%s\n" !case_no !op_no line om impl) end
@@ -156,6 +158,17 @@ let () =
                          incr mm_spec;
                          report "specorder" (Printf.sprintf "MISMATCH case=%d op=%d kind=spec prop=C01 key=pubsub:receive-order line=[%s] spec=increasing-send-index impl=%s\n" !case_no !op_no line impl) end
                      | [] -> ())
+                  | _ -> ());
+                 (match mo, o with
+                  | BRecv None, ORecv sid when stale_expired w1 sid ->
+                    incr mm_spec; bump extra "expired_connection_leaked";
+                    report "specstale" (Printf.sprintf "MISMATCH case=%d op=%d kind=spec prop=C01 key=pubsub:expired-connection-leaked line=[%s] spec=no-empty-expired-connection-after-receive-none impl=kept\n" !case_no !op_no line)
+                  | _ -> ());
+                 (match int_of_nat (lost_delivery w0 w1) with
+                  | 1 -> incr mm_spec; bump extra "lost_never_connected";
+                    report "speclost1" (Printf.sprintf "MISMATCH case=%d op=%d kind=spec prop=C01 key=pubsub:delivered-sample-lost-subscriber-not-yet-connected line=[%s] spec=delivered-samples-stay-receivable impl=connection-destroyed-with-data\n" !case_no !op_no line)
+                  | 2 -> incr mm_spec; bump extra "lost_expired_buffer_overflow";
+                    report "speclost2" (Printf.sprintf "MISMATCH case=%d op=%d kind=spec prop=C01 key=pubsub:expired-connection-buffer-discards-data line=[%s] spec=delivered-samples-stay-receivable impl=connection-removed-with-data\n" !case_no !op_no line)
                   | _ -> ());
                  (match mo with BSent _ | BRecv (Some _) | BLoaned _ -> cur_nontrivial := true | _ -> ());
                  (* the conservation invariant of C02 (and the bounds C08 counts with), evaluated on the model state *)
